@@ -41,28 +41,29 @@ CHECKS["C12"] = {
 SIM_NOTE = "the in-memory network and the synchronous scheduling of handler calls are the harness's model of UDP and of the node's goroutines; join/leave stream clients mirror Gossip.join/leave; known finding F3 (stale delta after an expiry) is excluded by dropping the packet"
 CHECKS["C02"] = {
     "subs": [{"pkg": "sim", "test": "TestKnownF3", "quick": 1, "thorough": 1, "shards": 1},
-             {"pkg": "sim", "test": "TestC02", "quick": 4000, "thorough": 200000, "shards_quick": 8, "shards_thorough": 16, "timeout_thorough": 7200}],
+             {"pkg": "sim", "test": "TestC02", "quick": 8000, "thorough": 200000, "shards_quick": 8, "shards_thorough": 16, "timeout_thorough": 7200}],
     "engine": "SIM",
     "level_text": "Deterministic-simulation property test: generated histories over 2-4 real gossip nodes and a generated network (loss, duplication, reordering, partitions, truncating packet limits); after every step each observer's view is checked against the owner's recorded write history. Exploration only.",
     "technique": "stateful PBT (rapid) over a simulated network in a synctest bubble; oracle = recorded owner write history",
     "level_note": SIM_NOTE,
 }
 CHECKS["C14"] = {
-    "subs": [{"pkg": "sim", "test": "TestC14", "quick": 4000, "thorough": 200000, "shards_quick": 8, "shards_thorough": 16, "timeout_thorough": 7200}],
+    "subs": [{"pkg": "sim", "test": "TestC14", "quick": 8000, "thorough": 200000, "shards_quick": 8, "shards_thorough": 16, "timeout_thorough": 7200}],
     "engine": "SIM",
     "level_text": "Same simulated histories; the oracle folds every watcher notification in order and compares the fold with the node's visible view after every step. Exploration only.",
     "technique": "stateful PBT (rapid), oracle = fold of recorded notifications vs visible state",
     "level_note": SIM_NOTE,
 }
 CHECKS["C03"] = {
-    "subs": [{"pkg": "sim", "test": "TestC03", "quick": 2000, "thorough": 80000, "shards_quick": 8, "shards_thorough": 16, "timeout_thorough": 7200}],
+    "subs": [{"pkg": "sim", "test": "TestC03Async", "quick": 40, "thorough": 1500, "shards_quick": 4, "shards_thorough": 16},
+             {"pkg": "sim", "test": "TestC03", "quick": 4000, "thorough": 80000, "shards_quick": 8, "shards_thorough": 16, "timeout_thorough": 7200}],
     "engine": "SIM",
     "level_text": "Generated divergent start states followed by a fair closure of real push-pull exchanges; convergence to structural equality is required within a bound and without idle streaks. Liveness is decided against explicit round bounds. Exploration only.",
     "technique": "stateful PBT (rapid) + bounded fair closure, oracle = structural equality with the owner's state",
     "level_note": SIM_NOTE + "; 'eventually delivers' is modelled by the closure's fair schedule",
 }
 CHECKS["C04"] = {
-    "subs": [{"pkg": "sim", "test": "TestC04", "quick": 3000, "thorough": 150000, "shards_quick": 8, "shards_thorough": 16, "timeout_thorough": 7200}],
+    "subs": [{"pkg": "sim", "test": "TestC04", "quick": 6000, "thorough": 150000, "shards_quick": 8, "shards_thorough": 16, "timeout_thorough": 7200}],
     "engine": "SIM",
     "level_text": "Simulated histories composing the real gossip state, syncer, cluster state and upstream manager; whenever an observer has caught up with an owner its routing table must mirror the owner's advertisement exactly, and every lookup must return an active, advertising remote node. Exploration only.",
     "technique": "stateful PBT (rapid), oracle = owner's own cluster state at equal versions",
@@ -70,7 +71,8 @@ CHECKS["C04"] = {
 }
 CHECKS["C11"] = {
     "subs": [{"pkg": "sim", "test": "TestKnownF2", "quick": 1, "thorough": 1, "shards": 1},
-             {"pkg": "sim", "test": "TestC11", "quick": 3000, "thorough": 150000, "shards_quick": 8, "shards_thorough": 16, "timeout_thorough": 7200}],
+             {"pkg": "sim", "test": "TestC11Async", "quick": 24, "thorough": 800, "shards_quick": 4, "shards_thorough": 16},
+             {"pkg": "sim", "test": "TestC11", "quick": 6000, "thorough": 150000, "shards_quick": 8, "shards_thorough": 16, "timeout_thorough": 7200}],
     "engine": "SIM",
     "level_text": "Simulated membership histories on a virtual clock with boundary-directed time steps; invariants I1-I6 are checked after every atomic action. Known finding F2 is recognised by its structural signature. Exploration only.",
     "technique": "stateful PBT (rapid) on a virtual clock, invariant oracle over the membership history",
@@ -81,7 +83,7 @@ CHECKS["C05"] = {
     "subs": [
         {"pkg": "sim", "test": "TestRegressD1", "quick": 1, "thorough": 1, "shards": 1},
         {"pkg": "sim", "test": "TestC05Seq", "quick": 10000, "thorough": 400000, "shards_quick": 4, "shards_thorough": 8},
-        {"pkg": "sim", "test": "TestC05Concurrent", "quick": 2000, "thorough": 60000, "shards_quick": 4, "shards_thorough": 8},
+        {"pkg": "sim", "test": "TestC05Concurrent", "quick": 8000, "thorough": 60000, "shards_quick": 4, "shards_thorough": 8},
         {"pkg": "sim", "test": "TestC05Sim", "quick": 2000, "thorough": 60000, "shards_quick": 4, "shards_thorough": 8},
     ],
     "engine": "SIM",
